@@ -1,8 +1,8 @@
 #!/bin/sh
 # re-run every stored seeded change against the current checks (no test-suite rerun), 4 at a time
 cd /verif
-ls -d seeded/C*-[abcdefghi] | xargs -P 4 -I{} sh -c 'n=$(basename {}); tools/seeded.py {} $n --no-tests > /var/tmp/reseed-$n.out 2>&1'
-for d in seeded/C*-[abcdefghi]; do
+ls -d seeded/C*-[a-j] | xargs -P 4 -I{} sh -c 'n=$(basename {}); tools/seeded.py {} $n --no-tests > /var/tmp/reseed-$n.out 2>&1'
+for d in seeded/C*-[a-j]; do
   n=$(basename $d)
   /venv/bin/python - $n <<'P'
 import sys,json
